@@ -10,6 +10,7 @@ pub mod prog;
 pub mod props;
 pub mod strs;
 pub mod prerace;
+pub mod reporterpanic;
 pub mod teardown;
 pub mod world;
 pub mod fuzzdec;
